@@ -216,7 +216,9 @@ def run(F, R, tier):
     R.ob("C06-f", "exact exclusions match the whole package name; only the prefix list is matched by prefix", len(exact) == 1 and pre_ok,
          "the exact exclusion list is no longer tested with `contains(package_name)` (or is also matched by prefix): excluding `@scope/b` would also exempt `@scope/bar` from the date rule", gp["file"])
     pb = F.body("graph::Builder::probe_cached_jsr_version_manifests")
-    for r_ in [n for n in pb["_nodes"] if n["k"] == "Ret" and not any(a_.get("k") == "Closure" for a_ in k_ancestors(n))]:
+    rets_ = [n for n in pb["_nodes"] if n["k"] == "Ret" and not any(a_.get("k") == "Closure" and not is_async_fn_closure(a_) for a_ in k_ancestors(n))]
+    R.floor("C06-c early returns of the cached-manifest probe", len(rets_), 1)
+    for r_ in rets_:
         g = guards_at(F, r_)
         ok = any(x.kind == "cond" and x.pol and x.node.get("k") == "MethodCall" and x.node["name"] == "is_empty" and tyc(F, x.node["recv"], "Vec<(deno_semver::Version") for x in g)
         R.ob("C06-c", "the cached-manifest probe is skipped only when this requirement has no unprobed candidate", ok,
